@@ -67,7 +67,8 @@ def angle_axis_to_rotation_matrix(angle_axis: torch.Tensor) -> torch.Tensor:
         # norm of the angle_axis vector is greater than zero. Otherwise
         # we get a division by zero.
         k_one = 1.0
-        theta = torch.sqrt(theta2)
+        # result is only used for theta2 > eps (cf. mask below), derivative of sqrt at zero is infinite
+        theta = torch.sqrt(theta2.clamp(min=eps))
         wxyz = angle_axis / (theta + eps)
         wx, wy, wz = torch.chunk(wxyz, 3, dim=1)
         cos_theta = torch.cos(theta)
